@@ -1,7 +1,8 @@
 #!/bin/bash
 # dev tool: behaviour-preserving patches (harmless/<i>/patch.diff) applied to a SCRATCH copy; every check that depends on a touched file is
 # run; a VIOLATION line would be a false alarm.  usage: tools/run_harmless.sh <dir-with-numbered-subdirs>
-cd /verif
+cd "$(dirname "$(readlink -f "$0")")/.."
+ROOT=$(pwd)
 W=${HARMW:-/var/tmp/walrus-seedrun3}
 mkdir -p $W/out
 rsync -a --delete --exclude target /repo/ $W/repo/
